@@ -276,7 +276,8 @@ class Kinds(QualInfer):
     def setup(self):
         from .sem import module_region
         prog = self.prog
-        self.encoder = prog.func(self._enc)
+        from .rules_paths import find_path_encoder
+        self.encoder = find_path_encoder(prog) if self._enc == "common._components_to_path" else prog.func(self._enc)
         self.decoder = prog.func(self._dec)
         self.path_cls = prog.cls(self._pc)
         # the encoder and the decoder themselves are string manipulation: trusted here, examined by PT1/PT3
